@@ -187,6 +187,7 @@ func c14Doc(s *core.Sub, cfg core.Cfg, src []byte, stride int) {
 }
 
 func runC14(r *core.Run) {
+	runC14Phases(r)
 	alpha := core.Union(core.ABlock, core.AExt)
 	n := core.Pick(r, 2, 3)
 	for _, cn := range []string{"core", "all+autoid+attr"} {
@@ -269,6 +270,60 @@ func runC14(r *core.Run) {
 			s.AddSample(fmt.Sprintf("large doc %d: %d source bytes, %d output bytes", i, len(big[i]), len(refs[i])))
 		}
 		s.States.Store(int64(len(big)))
+		s.Transitions.Store(s.Evals.Load())
+		s.Done()
+	}
+}
+
+// runC14Phases: which write call meets the failing flush depends on what the renderer is writing when its 4096-byte
+// buffer fills, i.e. on the phase of the document against the buffer boundaries. Each base document is shifted by a
+// leading paragraph of EVERY length 0..maxP, and the writer fails inside each buffer-full flush (and at 0 and at the end).
+func runC14Phases(r *core.Run) {
+	maxP := core.Pick(r, 64, 512)
+	var row strings.Builder
+	for i := 0; i < 120; i++ {
+		fmt.Fprintf(&row, "|l%d|`c\\|%d`|*r%d*|\n", i, i, i)
+	}
+	bases := []string{
+		"|a|b|c|\n|:-|:-:|-:|\n" + row.String(),
+		strings.Repeat("# h {#i .c}\n\n> q *e* `c` [l](/u \"t\") ![i](/s)\n\n- [x] t\n\n```go\nx\n```\n\nx[^1] ~~s~~ www.a.bc \"q\"\n\n[^1]: n\n\nT\n: d\n\n***\n\n", 25),
+	}
+	for _, cn := range []string{"gfm+align=attr", "gfm+xhtml", "all+attr+autoid"} {
+		cfg := core.MustCfg(cn)
+		s := r.Sub("buffer-phases/"+cn, fmt.Sprintf("%d base documents (a table of 120 rows with three aligned columns; 25 repetitions of a kitchen-sink block) × a leading paragraph of EVERY length 0..%d × the writer failing inside every 4096-byte flush (at 0, at 4096m-1 for every m, at the last byte) × plain and rich writers under %s", len(bases), maxP, cn))
+		type item struct{ b, p int }
+		var items []item
+		for b := range bases {
+			for p := 0; p <= maxP; p++ {
+				items = append(items, item{b, p})
+			}
+		}
+		s.Bound = fmt.Sprintf("%d documents × every buffer flush × 2 writers", len(items))
+		core.ForEachIndex(len(items), core.Workers(), func(w int) func(int) {
+			cv := core.NewConv(cfg)
+			return func(ii int) {
+				it := items[ii]
+				src := []byte(strings.Repeat("p", it.p) + "\n\n" + bases[it.b])
+				out, _, _ := cv.Convert(src)
+				ref := append([]byte{}, out...)
+				ks := []int{0, len(ref) - 1}
+				for m := 1; 4096*m-1 < len(ref); m++ {
+					ks = append(ks, 4096*m-1)
+				}
+				for _, k := range ks {
+					if k < 0 {
+						continue
+					}
+					c14Case(s, cfg, src, ref, k, 0)
+					c14Case(s, cfg, src, ref, k, 3)
+				}
+				s.Distinct(core.Hash(src))
+				if ii%(len(items)/4+1) == 0 {
+					s.AddSample(fmt.Sprintf("base %d shifted by a %d-letter paragraph: %d output bytes", it.b, it.p, len(ref)))
+				}
+			}
+		}, r.Expired)
+		s.States.Store(int64(len(items)))
 		s.Transitions.Store(s.Evals.Load())
 		s.Done()
 	}
